@@ -867,7 +867,7 @@ func main() {
 			"concurrent-task-id-reuse", map[string]interface{}{
 				"observed_on": "model only in this run (the goroutine race was not hit in " + fmt.Sprint(trials) + " trials)",
 				"witness_schedule": "Spawn Task(7); Spawn Task(7); Run 0 x3 (check passes); Run 1 x3 (check passes); Run 0 (insert); Run 1 (insert overwrites)",
-				"coq": "Proofs/Job.v task_id_race_witness"})
+				"coq": "Props/C14.v C14_task_id_race_refuted (Proofs/Job.v task_id_race_refuted)"})
 	}
 	out.Extra("task_race", map[string]interface{}{"trials": trials, "observed_on_implementation": hit})
 	out.Note("real goroutine schedules are only sampled by the stress run; the theorems cover every interleaving of the modelled atomic steps")
